@@ -26,3 +26,9 @@ MANIFEST_ENTRY = {
     "rounding that lands exactly on minus the position (close-out coincidence) is excluded from the budget clause and tracked as a known finding.",
     "technique": "contract-based deductive verification: VCs from the real AST (pyvc) + z3/cvc5; loop invariant on the sizing search",
 }
+
+
+def replay(o):
+    from pyvc.concrete import replay_scenario
+
+    return replay_scenario(o)
